@@ -66,6 +66,19 @@ class Scheduler:
         self.errors = []
         self.tid_of = {}
         self.max_op_steps = 0
+        # 'rendezvous' policy (instruction granularity): clients are held at every line that touches shared mutable state
+        # (module globals, closure cells) until another client arrives at the same point; the next instructions are then
+        # executed in tight alternation (1-3 instructions per slice), so that windows *inside* one source line are crossed
+        # by two clients at the same time although their data (and therefore their paths elsewhere) differ
+        self.rv = self.explicit is None and self.policy.get('kind') == 'rendezvous' and granularity == 'instr'
+        self.rv_cache = {}
+        self.rv_wait = {}       # tid -> (code, offset) the client is held at
+        self.rv_since = {}
+        self.rv_patience = self.policy.get('patience', 30000)
+        self._rv_prob = self.policy.get('rv_prob', 1.0)
+        self.tight_left = 0
+        self.tight_set = ()
+        self.rendezvous = 0
 
     # ------------------------------------------------------------------ schedule source
     def _next_slice(self, exclude_finished=True):
@@ -81,6 +94,21 @@ class Scheduler:
             return alive[0], 1 << 60   # schedule exhausted: run the rest to completion in order
         p = self.policy
         kind = p['kind']
+        if self.rv:
+            if self.tight_left > 0:
+                cand = [t for t in self.tight_set if t in self.alive]
+                if len(cand) >= 2:
+                    nxt = [t for t in cand if t != self.cur] or cand
+                    n = self.rng.choice((1, 1, 2, 3))
+                    self.tight_left = max(0, self.tight_left - n)
+                    return self.rng.choice(nxt), n
+                self.tight_left = 0
+            free = [t for t in alive if t not in self.rv_wait]
+            if not free:   # everybody is held somewhere: release the one that has waited longest
+                t = min(self.rv_wait, key=lambda x: (self.rv_since.get(x, 0), x))
+                del self.rv_wait[t]
+                free = [t]
+            return self.rng.choice(free), 1 + int(self.rng.expovariate(1.0 / p.get('mean', 3000)))
         if kind == 'sequential':
             return alive[0], 1 << 60
         if kind == 'roundrobin':
@@ -100,7 +128,14 @@ class Scheduler:
         else:
             tid = self.rng.choice(alive)
         mean = p.get('mean', 500)
-        if kind == 'fixed':
+        if kind == 'bimodal':
+            # mostly very short slices (so that some slice ends inside any given narrow window), now and then a very
+            # long one (so that the other client travels far -- through its own copy of the window -- while one is parked)
+            if self.rng.random() < 0.5:
+                steps = self.rng.randint(1, max(2, mean))
+            else:
+                steps = self.rng.randint(2000, 120000)
+        elif kind == 'fixed':
             steps = mean
         else:
             # geometric-ish with heavy tail: most slices short, some long
@@ -185,6 +220,30 @@ class Scheduler:
                     raise InjectedMemoryError('injected allocation failure at %s:%s' % w)
                 if f['kind'] == 'clock' and self.clock is not None:
                     self.clock.advance(f.get('delta', 3600))
+        if self.rv and b is not None and not self.tight_left and len(self.alive) > 1:
+            pts = self.rv_cache.get(a)
+            if pts is None:
+                pts = self.rv_cache[a] = _shared_offsets(a)
+            if b in pts and (self._rv_prob >= 1.0 or self.rng.random() < self._rv_prob):
+                key = (a, b)
+                other = None
+                for t, k2 in self.rv_wait.items():
+                    if k2 == key and t != tid and t in self.alive:
+                        other = t
+                        break
+                if other is not None:
+                    del self.rv_wait[other]
+                    self.tight_left = self.policy.get('tight', 90)
+                    self.tight_set = (tid, other)
+                    self.rendezvous += 1
+                    self.slice_left = 1          # start alternating right here
+                else:
+                    self.rv_wait[tid] = key
+                    self.rv_since[tid] = self.steps
+                    self.slice_left = 1          # give the baton away; this client is held until somebody joins or patience ends
+            if self.rv_wait:
+                for t in [t for t, since in self.rv_since.items() if t in self.rv_wait and self.steps - since > self.rv_patience]:
+                    del self.rv_wait[t]
         if n > self.step_budget:
             raise StepBudgetExceeded('operation %d of client %d exceeded %d steps' % (self.opindex[tid], tid, self.step_budget))
         self.slice_left -= 1
@@ -295,6 +354,48 @@ class Scheduler:
 
     def digest(self):
         return core.digest([self.recorded, [list(x[:3]) + [list(x[3]) if x[3] else None] for x in self.log[:2000]], self.fired])
+
+
+_FILE2MOD = {}
+_MISSING = object()
+
+
+def _shared_offsets(code):
+    """Instruction offsets that begin a source line which touches shared mutable state: a module-level name bound to a
+    mutable container / None / not (yet) defined, an attribute of a module that is a mutable container, or a closure cell."""
+    import builtins
+    import dis
+    import types
+    if not _FILE2MOD:
+        for m in list(sys.modules.values()):
+            f = getattr(m, '__file__', None)
+            if f and f.startswith(SEGNO_DIR):
+                _FILE2MOD[f] = m
+    mod = _FILE2MOD.get(code.co_filename)
+    g = vars(mod) if mod is not None else {}
+    mutable = (dict, list, set, bytearray)
+    lines = set()
+    instrs = list(dis.get_instructions(code))
+    cur_line = None
+    for i, ins in enumerate(instrs):
+        if ins.starts_line is not None:
+            cur_line = ins.starts_line
+        op = ins.opname
+        hit = False
+        if op in ('LOAD_GLOBAL', 'STORE_GLOBAL', 'DELETE_GLOBAL', 'LOAD_NAME'):
+            name = ins.argval
+            v = g.get(name, _MISSING)
+            if v is _MISSING:
+                hit = not hasattr(builtins, name)
+            elif v is None or isinstance(v, mutable):
+                hit = True
+            elif isinstance(v, types.ModuleType) and i + 1 < len(instrs) and instrs[i + 1].opname in ('LOAD_ATTR', 'STORE_ATTR'):
+                hit = isinstance(getattr(v, instrs[i + 1].argval, None), mutable)
+        elif op in ('LOAD_DEREF', 'STORE_DEREF'):
+            hit = True
+        if hit and cur_line is not None:
+            lines.add(cur_line)
+    return frozenset(ins.offset for ins in instrs if ins.starts_line is not None and ins.starts_line in lines)
 
 
 class StepGuard:
